@@ -272,6 +272,7 @@ def run_case(case: Dict[str, Any]) -> Dict[str, Any]:
     for k in ('send', 'recv', 'send:short', 'send:short-injected', 'send:eagain-injected', 'send:eagain-real', 'recv:capped'):
         obs['shim:' + k] = counts.get(k, 0)
     obs['iterations'] = rig.iterations
+    obs['shim:send:short-real'] = max(0, counts.get('send:short', 0) - counts.get('send:short-injected', 0))
     obs['fr:' + fr] = 1
     obs['role:' + role] = 1
     obs['mode:' + mode] = 1
@@ -324,7 +325,7 @@ def cases(tier: str, seed: int):
 
 def floors(tier: str) -> Dict[str, int]:
     fl = {'nontrivial_cases': 100, 'distinct:schedules': 300, 'distinct:handler_states': 3,
-          'shim:send:short-injected': 100, 'shim:send:eagain-injected': 50, 'shim:send:eagain-real': 5, 'mode:remote': 50, 'role:tunnel': 50}
+          'shim:send:short-injected': 100, 'shim:send:eagain-injected': 50, 'shim:send:short-real': 20, 'mode:remote': 50, 'role:tunnel': 50}
     for f in FRAMINGS:
         fl['fr:' + f] = 10
     return fl
